@@ -15,9 +15,9 @@ Hypothesis H_img : W_img mm Sg alias_objects plain_classes = true.
 Hypothesis H_names : names_ok mm = true.
 Hypothesis H_fields : fields_ok2 Sg = true.
 Hypothesis H_table : table_ok Sg GC GU = true.
-Hypothesis H_hooks : hooks_ok Sg GC GU = true.
+Hypothesis H_hooks : hooks_ok Sg (NLmm mm) GC GU = true.
 
-Theorem mm_pvalid T j p k n : cvalid mm T j -> wfp p = true -> smatch mm Sg alias_objects k (py_of mm n T) p = true -> pvalid Sg p j.
+Theorem mm_pvalid T j p k n : cvalid mm T j -> wfp p = true -> smatch mm Sg alias_objects k (py_of mm n T) p = true -> pvalid Sg (NLmm mm) p j.
 Proof.
   destruct (names_ok_sound mm H_names) as [N1 [N2 [N3 N4]]]. destruct (fields_ok2_sound Sg H_fields) as [F1 F2].
   exact (cvalid_pvalid mm Sg alias_objects plain_classes H_img F1 F2 N1 N2 N3 N4 T j p k n).
@@ -29,7 +29,7 @@ Theorem mm_roundtrip T j p k n : cvalid mm T j -> wfp p = true -> smatch mm Sg a
   okty Sg GC GU p = true ->
   exists n' o j', structure Sg py_str n' p j = Ok o /\ has_type Sg p o /\ unstr Sg n' (Some p) o = Ok j' /\ NEq j j'.
 Proof.
-  intros V W M O. exact (covered_roundtrip Sg py_str GC GU H_table H_hooks p j O (mm_pvalid T j p k n V W M)).
+  intros V W M O. exact (covered_roundtrip Sg py_str (NLmm mm) GC GU H_table H_hooks p j O (mm_pvalid T j p k n V W M)).
 Qed.
 
 (* structures: the class of the same name *)
